@@ -259,8 +259,7 @@ def run(seed=0, tier='quick', hints=None, broken=False):
     viol, evals, outcomes, seen = [], 0, {}, set()
     for name in sorted(CTOR):
         cfgs = configurations(name)
-        if tier == 'quick' and not broken:
-            cfgs = [cfgs[0]] + rng.sample(cfgs[1:], min(len(cfgs) - 1, 2))
+        # every documented configuration, also in the quick tier (a sample of three missed a swapped pair of arguments)
         for kw in cfgs:
             if name == 'PadIfNeeded' and kw.get('position') == 'random':
                 continue            # covered by check_pad_random (known finding)
